@@ -80,6 +80,9 @@ class Check:
         b.add_harness(cfg["harness"], cfg["pkg"])
         for extra_dir, extra_pkg in cfg.get("extra_harness", []):
             b.add_harness(extra_dir, extra_pkg)
+        for src, dst in cfg.get("extra_files", []):
+            # harness-only NON-test files added to other repo packages (reset/export helpers)
+            b.overlay[os.path.join(B.REPO, dst)] = os.path.join(VERIF, src)
         exe, secs = b.test_binary(cfg["pkg"], name="sim-race.test" if race else "sim.test", race=race)
         return exe, secs
 
